@@ -16,6 +16,9 @@ on which the protocol handlers, `device_info` extractors or `service_info` raise
 * `isolation`             the statement of DESIGN.md: `results (good ++ [bad]) ↾ goodAddrs =
       results good`, for every bad payload;
 * `isolation_unicast`     the same for the unicast scanner (a bad host in the `hosts` list);
+* `isolation_unicast_gather` / `unicast_gather_counterexample`  the unicast path has no barrier
+      around `ServiceParser.parse` (`get_response` → `_get_services` → `asyncio.gather`): isolation
+      there rests on `parse` raising on no record content, and fails without it;
 * `good_only_good`        with no bad source nothing is filtered out;
 * `discover_pinned_counterexample`  D7: on the pinned `discover()` a single raising
       `service_info` (Companion `rpfl=zz`, AirPlay `flags=zz`) makes the whole scan fail — the
@@ -57,6 +60,22 @@ theorem isolation_unicast (e : Env) (si : SvcInfoFn) (nq : Nat) (bad goodAddr : 
       scanU e si nq (hosts.filter (fun h => !bad h)) (ws.filter (fun w => !bad w.src)) := by
   unfold C05.scanU
   rw [handledU_filter e nq bad goodAddr hosts ws hsep, results_filter]
+
+/-- **Unicast, the exception path**: when `ServiceParser.parse` raises for no host, the scan that
+    joins the hosts with `asyncio.gather` returns, and isolation holds for what it returns. -/
+theorem isolation_unicast_gather (e : Env) (si : SvcInfoFn) (nq : Nat) (bad goodAddr : Nat → Bool)
+    (hosts : List Nat) (ws : List WDgram) (raises : Nat → Bool) (htotal : ∀ h ∈ hosts, raises h = false)
+    (hsep : SeparatedU e nq bad goodAddr hosts ws) :
+    ∃ r, scanUGather e si nq hosts ws raises = some r ∧
+      r.filter (fun c => goodAddr c.addr) =
+        scanU e si nq (hosts.filter (fun h => !bad h)) (ws.filter (fun w => !bad w.src)) := by
+  refine ⟨scanU e si nq hosts ws, ?_, isolation_unicast e si nq bad goodAddr hosts ws hsep⟩
+  unfold scanUGather
+  have : hosts.any raises = false := by
+    rw [List.any_eq_false]
+    intro h hh
+    simp [htotal h hh]
+  simp [this]
 
 /-- nothing else is dropped: without bad sources the restriction is the identity -/
 theorem good_only_good (e : Env) (si : SvcInfoFn) (goodAddr : Nat → Bool) (ws : List WDgram)
@@ -107,6 +126,17 @@ example : (scanM exEnv exSi [garbageDg, goodDg, badDg, garbageDg]).filter (fun c
 /-- unicast: hosts 1 and 2, one query each -/
 example : SeparatedU exEnv 1 isBad isGoodAddr [1, 2] [goodDg, badDg, garbageDg] := by decide +kernel
 example : (scanU exEnv exSi 1 [1, 2] [goodDg, badDg, garbageDg]).map (·.addr) = [1, 2] := by decide +kernel
+
+/-- … and that hypothesis cannot be dropped: there is no barrier on this path, one host on whose
+    records `parse` raised would take every other host's result with it (the class of change
+    `parse` must be guarded against; observed on the real `pyatv.scan(hosts=[…])` by the harness). -/
+theorem unicast_gather_counterexample :
+    ¬ (∀ (e : Env) (si : SvcInfoFn) (nq : Nat) (hosts : List Nat) (ws : List WDgram) (raises : Nat → Bool) (b : Nat),
+        (scanUGather e si nq hosts ws raises).isSome → (scanUGather e si nq (hosts ++ [b]) ws raises).isSome) := by
+  intro h
+  have := h exEnv exSi 1 [1] [goodDg] (fun a => a == 2) 2 (by decide +kernel)
+  revert this
+  decide +kernel
 
 /-- **D7, pinned**: "if the scan of the good hosts returns, so does the scan with one more
     announcement" is false of the pinned `discover()`. -/
